@@ -202,6 +202,8 @@ func checkC01(w *World, c *Check, tier string) {
 							gbad = fmt.Sprintf("inverted guard: %q is written only when %s says the field is unset", st.names, g.desc)
 						} else if g.signOnly {
 							gbad = fmt.Sprintf("sign-sensitive emptiness guard %s on %s (type %s): negative values are never written", g.desc, key, typeName(f.Type))
+						} else if miss := partialGuard(g, s, f.Index); miss != "" {
+							gbad = fmt.Sprintf("partial guard: %q is written only when %s holds, which ignores the sub-field(s) %s of %s: a value with only those set is dropped", st.names, g.desc, miss, key)
 						}
 					}
 				}
@@ -427,6 +429,49 @@ func guardOnOtherField(g guard, s *StructInfo, idx int) string {
 		other = r.String()
 	}
 	return other
+}
+
+// partialGuard: a set-side guard on the field that looks only at some of the field's own sub-fields (o.Source.Content
+// but not o.Source.MediaType): the property is dropped for a value in which only the other sub-fields are set.
+// A single condition that mentions every sub-field (len(a)+len(b) > 0) is complete; a conjunction of per-sub-field
+// conditions is a chain of partial guards.
+func partialGuard(g guard, s *StructInfo, idx int) string {
+	if g.side != sideSet {
+		return ""
+	}
+	var ft types.Type
+	for _, f := range s.Fields {
+		if f.Index == idx {
+			ft = f.Type
+		}
+	}
+	if ft == nil {
+		return ""
+	}
+	st, ok := types.Unalias(ft).Underlying().(*types.Struct)
+	if !ok || st.NumFields() < 2 {
+		return ""
+	}
+	seen := map[int]bool{}
+	for _, r := range g.refs {
+		if len(r.Idx) == 0 || r.Idx[0] != idx || r.RootType == nil || !isPrefixView(r.RootType, s.Named) {
+			return "" // mentions something else as well: judged by the other rules
+		}
+		if len(r.Idx) == 1 {
+			return "" // the whole field
+		}
+		seen[r.Idx[1]] = true
+	}
+	var missing []string
+	for i := 0; i < st.NumFields(); i++ {
+		if !seen[i] {
+			missing = append(missing, st.Field(i).Name())
+		}
+	}
+	if len(seen) == 0 || len(missing) == 0 {
+		return ""
+	}
+	return strings.Join(missing, ", ")
 }
 
 func guardOnField(g guard, s *StructInfo, idx int) bool {
